@@ -1,8 +1,132 @@
 import RbV.Basic.Codec
-/-! Driver for property C10 (line protocol → verdict). -/
-namespace RbV.Drv.C10
-open RbV.Codec
+import RbV.Ref.MyersHit
+import RbV.Drv.C09
+/-! Driver for property C10: Myers traceback and API agreement.
 
-def verdict (_toks : List String) (_out : String) : String := "bad-op unimplemented"
+`c10 <ws> <wl> <new|bld> <pattern> <amb> <wild> <search>/… => <obs>/…`
+   search = `E:<k>:<script>:<text>` (eager API) | `L:<k>:<seed>:<text>` (lazy API)
+   obs    = `H=<start:end:dist:ops,…>;X=<…>;stop=<0|1>;q=<n>;u=<n>;api:same|api:differs:<what>`
+
+Per search: every hit in `H` must pass `EditDist.checkHit` (proved ⇔ `HitOK`: valid labelled alignment of the whole
+pattern with t[start..end], #non-match = dist = the minimum edit distance over all substrings ending at end-1, ≤ k);
+the (end-1, dist) of `H` must be exactly the expected `find_all_end` list (a prefix when the iterator was dropped);
+every traceback in `X` (visited non-hit ends, single-word version) must pass the same test without the bound k;
+the harness-side API comparison must say `api:same`. -/
+namespace RbV.Drv.C10
+open RbV.Codec RbV.EditDist RbV.Drv.C09
+
+def parseOps (s : String) : Option (List Op) :=
+  s.toList.mapM fun c =>
+    if c = 'M' then some Op.mat else if c = 'S' then some Op.sub
+    else if c = 'I' then some Op.ins else if c = 'D' then some Op.del else none
+
+def parseHit (s : String) : Option Hit :=
+  match s.splitOn ":" with
+  | [a, b, c, o] =>
+    match parseNat a, parseNat b, parseNat c, parseOps o with
+    | some st, some en, some d, some ops => some ⟨st, en, d, ops⟩
+    | _, _, _, _ => none
+  | _ => none
+
+def parseHits (s : String) : Option (List Hit) := parseList parseHit s
+
+structure Obs where
+  hits : List Hit
+  extra : List Hit
+  stop : Bool
+  queries : Nat
+  unvisited : Nat
+  api : String
+
+/-- `key=value` -/
+def kvEq (tok : String) : Option (String × String) :=
+  match tok.splitOn "=" with
+  | k :: rest@(_ :: _) => some (k, "=".intercalate rest)
+  | _ => none
+
+def parseObs (s : String) : Option Obs :=
+  match s.splitOn ";" with
+  | [h, x, st, q, u, api] =>
+    match kvEq h, kvEq x, kvEq st, kvEq q, kvEq u with
+    | some ("H", hs), some ("X", xs), some ("stop", sv), some ("q", qs), some ("u", us) =>
+      match parseHits hs, parseHits xs, parseNat qs, parseNat us with
+      | some hl, some xl, some qn, some un => some ⟨hl, xl, sv = "1", qn, un, api⟩
+      | _, _, _, _ => none
+    | _, _, _, _, _ => none
+  | _ => none
+
+/-- verdict of one search: `none` = fine (with tags), `some reason` = violation -/
+def checkSearch (eqv : Nat → Nat → Bool) (p : List Nat) (search obs : String) : Except String (Option String × String) :=
+  match search.splitOn ":" with
+  | [kind, ks, _script, th] =>
+    match parseNat ks, parseHex th with
+    | some k, some t =>
+      if !(kind = "E" || kind = "L") then .error "search-kind" else
+      match parseObs obs with
+      | none => .ok (some ("unparseable-observation " ++ obs), "")
+      | some o =>
+        let row := lastRow (unitW eqv) p t
+        let exp := hitsFrom k 0 row
+        let got := o.hits.map fun h => (h.stop - 1, h.dist)
+        let m := p.length
+        if o.api ≠ "api:same" then .ok (some ("api-disagree " ++ o.api), "") else
+        match o.hits.find? (fun h => !checkHitRow row eqv p t k h) with
+        | some h => .ok (some ("bad-hit " ++ toString h.start ++ ":" ++ toString h.stop ++ ":" ++ toString h.dist), "")
+        | none =>
+        match o.extra.find? (fun h => !checkHitRow row eqv p t h.dist h) with
+        | some h => .ok (some ("bad-traceback-at-visited-end " ++ toString h.start ++ ":" ++ toString h.stop ++ ":" ++ toString h.dist), "")
+        | none =>
+        if (if o.stop then got ≠ exp.take got.length else got ≠ exp) then
+          .ok (some ("hits-differ-from-expected " ++ showPairs exp), "")
+        else
+          let indel := o.hits.any fun h => h.ops.any (fun x => x = Op.ins || x = Op.del)
+          let tags := (if kind = "E" then " eager" else " lazy")
+            ++ (if o.hits.any (fun h => h.dist > 0) then " nt" else "")
+            ++ (if indel then " indel" else "")
+            ++ (if o.hits.any (fun h => h.start = 0) then " start0" else "")
+            ++ (if o.hits.any (fun h => h.start = h.stop) then " emptysub" else "")
+            ++ (if k ≥ m then " k>=m" else "")
+            ++ (if kind = "E" && t.length > m + min k m + 2 && !o.hits.isEmpty then " wrap" else "")
+            ++ (if kind = "E" && t.length > 2 * (m + min k m + 2) && !o.hits.isEmpty then " wrap2" else "")
+            ++ (if o.stop then " stop" else "")
+            ++ (if !o.extra.isEmpty then " nonhit-trace" else "")
+            ++ (if o.unvisited > 0 then " unvisited-probed" else "")
+            ++ (if o.hits.isEmpty then " nohit" else "")
+          .ok (none, tags)
+    | _, _ => .error "search-parse"
+  | _ => .error "search-arity"
+
+def verdict (toks : List String) (out : String) : String :=
+  match toks with
+  | [wss, wls, mode, ph, ambs, wilds, ss] =>
+    match parseNat wss, parseNat wls, parseHex ph, parseAmb ambs, parseHex wilds with
+    | some ws, some wl, some p, some amb, some wild =>
+      if !((0 :: wordSizes).contains ws) || !((0 :: wordSizes).contains wl) || (ws = 0 && wl = 0)
+          || !(mode = "new" || mode = "bld") || p.isEmpty || (ws ≠ 0 && p.length > ws) then
+        "bad-op c10-parameters" else
+      if out.startsWith "PANIC" || out.startsWith "HANG" || out.startsWith "CRASH" then "reject " ++ out else
+      let eqv := mkEqv amb wild
+      let searches := ss.splitOn "/"
+      let obs := out.splitOn "/"
+      if searches.length ≠ obs.length then "reject arity" else
+      let rec go (l : List (String × String)) (i : Nat) (tags : String) : String :=
+        match l with
+        | [] =>
+          let w := if wl ≠ 0 then wl else ws
+          "ok" ++ dedupTags (tags
+            ++ (if ws ≠ 0 && wl ≠ 0 then " both" else if ws ≠ 0 then " single" else " block")
+            ++ (if wl ≠ 0 && p.length > wl then " blocks>1" else "")
+            ++ (if wl ≠ 0 && p.length > 2 * wl then " blocks>2" else "")
+            ++ (if p.length = w then " m=w" else "")
+            ++ (if !amb.isEmpty || !wild.isEmpty then " tables" else "")
+            ++ (if searches.length > 1 then " reuse" else ""))
+        | (s, o) :: r =>
+          match checkSearch eqv p s o with
+          | .error e => "bad-op " ++ e
+          | .ok (some why, _) => "reject search#" ++ toString i ++ " " ++ why
+          | .ok (none, tg) => go r (i + 1) (tags ++ tg)
+      go (searches.zip obs) 0 ""
+    | _, _, _, _, _ => "bad-op c10-parse"
+  | _ => "bad-op c10-arity"
 
 end RbV.Drv.C10
